@@ -20,7 +20,7 @@ vars == <<l, viol, fired>>
 
 NV == 7      \* identities projected by the driver (v5, v7: removed validators, v6: created by a transaction)
 VoteKinds == {"prevote", "precommit", "nextindex", "certificate"}
-Clauses == {"HonestNeverSlashable", "RealEquivocationAccepted", "SlashedOnce", "PenaltyBounded", "BuilderEqualsValidator"}
+Clauses == {"HonestNeverSlashable", "RealEquivocationAccepted", "SlashedOnce", "PenaltyBounded", "PenaltySource", "BuilderEqualsValidator"}
 Paths == {"seal", "raw", "imp"}
 
 PostOf(e, p) == CASE p = "seal" -> e.seal [] p = "raw" -> e.raw [] OTHER -> e.imp
@@ -67,6 +67,9 @@ RealEquivocation(c, e) == /\ c.round = e.parent /\ c.target = c.signer /\ c.targ
 
 \* class of a HonestNeverSlashable failure: which of v's own votes were put together against it
 OwnCases(v, e) == { i \in DOMAIN e.all : e.all[i].target = v /\ e.all[i].signer = v /\ e.all[i].round = e.parent /\ Len(e.all[i].pairs) >= 2 }
+\* evidences whose pairs are all signatures of the accused validator's own key, presented for the round the block can judge
+OwnAll(e) == { i \in DOMAIN e.all : LET c == e.all[i] IN c.target = c.signer /\ c.target # 0 /\ c.round = e.parent /\ Len(c.pairs) >= 2
+                                                        /\ \A j \in DOMAIN c.pairs : c.pairs[j].src \in VoteKinds }
 SrcSet(c) == { c.pairs[j].src : j \in DOMAIN c.pairs }
 HasDup(c) == \E i, j \in DOMAIN c.pairs : i < j /\ c.pairs[i] = c.pairs[j]
 TwoNext(c) == \E i, j \in DOMAIN c.pairs : i < j /\ c.pairs[i].src = "nextindex" /\ c.pairs[j].src = "nextindex" /\ c.pairs[i].h # c.pairs[j].h
@@ -78,6 +81,27 @@ HonestDisc(v, e) ==
 
 Logs(e, name) == IF name \in DOMAIN e THEN e[name] ELSE <<>>
 CountFor(lg, v) == Cardinality({ i \in DOMAIN lg : lg[i].val = v })
+
+\* ---- WHERE a penalty comes from ("takes ... of ITS stake and pending withdrawals"), compared per record:
+\* (1) only what belongs to a validator against which an evidence with its own signatures was presented for this round is
+\*     reduced: its record (own stake, each delegation to it) and the unfinished withdraw records against IT -- never a record,
+\*     a stake or a delegation of another validator, whoever the delegator is;
+\* (2) per owner (the validator itself / each of its delegators) the unfinished withdraw records of that validator go first:
+\*     the own stake / the delegation is reduced only when all of that owner's records of the validator are empty.
+AccusedOwn(e) == { e.all[i].target : i \in OwnAll(e) }
+RecLoss(r, post, blockNo) == r[3] - PostFin(r, post.wq, blockNo)
+DlgTok(val, d) == IF \E i \in DOMAIN val.dl : val.dl[i][1] = d THEN val.dl[CHOOSE i \in DOMAIN val.dl : val.dl[i][1] = d][2] ELSE 0
+ForeignTouched(e, post) ==
+   \/ \E i \in DOMAIN e.pre.wq : e.pre.wq[i][4] = 0 /\ RecLoss(e.pre.wq[i], post, e.parent + 1) > 0 /\ e.pre.wq[i][1] \notin AccusedOwn(e)
+   \/ \E v \in 1..NV : v \notin AccusedOwn(e) /\ (post.vals[v].token # e.pre.vals[v].token \/ post.vals[v].selfToken # e.pre.vals[v].selfToken
+                                                   \/ post.vals[v].dl # e.pre.vals[v].dl)
+OrderBroken(e, post) ==
+   \E v \in AccusedOwn(e) :
+      \/ /\ e.pre.vals[v].selfToken > post.vals[v].selfToken
+         /\ \E i \in DOMAIN e.pre.wq : e.pre.wq[i][1] = v /\ e.pre.wq[i][2] = 0 /\ e.pre.wq[i][4] = 0 /\ PostFin(e.pre.wq[i], post.wq, e.parent + 1) > 0
+      \/ \E n \in DOMAIN e.pre.vals[v].dl : LET d == e.pre.vals[v].dl[n][1] IN
+            /\ e.pre.vals[v].dl[n][2] > DlgTok(post.vals[v], d)
+            /\ \E i \in DOMAIN e.pre.wq : e.pre.wq[i][1] = v /\ e.pre.wq[i][2] = d /\ e.pre.wq[i][4] = 0 /\ PostFin(e.pre.wq[i], post.wq, e.parent + 1) > 0
 
 \* ---- clauses: set of <<clause, discriminator, line>> failing at event e
 Fail(e) ==
@@ -104,6 +128,10 @@ Fail(e) ==
         p \in { q \in Paths : \E v \in 1..NV :
                    Taken(PreOf(e), PostOf(e, q), v) > (e.frac * (e.pre.vals[v].token + Pending(e.pre.wq, v))) \div 100 } }
    \cup
+   { <<"PenaltySource", {"foreign_record", p}, l>> : p \in { q \in Paths : ForeignTouched(e, PostOf(e, q)) } }
+   \cup
+   { <<"PenaltySource", {"records_first", p}, l>> : p \in { q \in Paths : OrderBroken(e, PostOf(e, q)) } }
+   \cup
    \* "accepted by block builder and block validator alike"
    (IF e.impErr # "" THEN { <<"BuilderEqualsValidator", {"import_rejected"}, l>> } ELSE {})
    \cup (IF e.impErr = "" /\ e.seal # e.imp THEN { <<"BuilderEqualsValidator", {"import_differs"}, l>> } ELSE {})
@@ -114,6 +142,7 @@ Count(e) == [c \in Clauses |->
      [] c = "RealEquivocationAccepted" -> Cardinality({ n \in DOMAIN e.all : RealEquivocation(e.all[n], e) })
      [] c = "SlashedOnce" -> Cardinality({ v \in 1..NV : CountFor(Logs(e, "sealLogs"), v) > 0 })
      [] c = "PenaltyBounded" -> Cardinality({ v \in 1..NV : Taken(PreOf(e), e.seal, v) > 0 })
+     [] c = "PenaltySource" -> Cardinality({ i \in DOMAIN e.pre.wq : e.pre.wq[i][4] = 0 /\ RecLoss(e.pre.wq[i], e.seal, e.parent + 1) > 0 })
      [] OTHER -> 1]
 
 Init == l = 1 /\ viol = {} /\ fired = [c \in Clauses |-> 0]
